@@ -23,6 +23,8 @@ EXPLANATION = (
     "level roles a store ['params']['model'] = <created model> precedes the consuming call; agent_index is the loop "
     "variable of a range starting at 0 bounded by the group's `number`.")
 EXPLANATION += (" Hook functions and classes are resolved in the module named by their own entry; the scheduler / environment a decoded object is registered with is read after the hooks that may replace it. Premises: C01 (declared scheduling), C04's Environment.add_agent rules.")
+EXPLANATION += (" decode() stores only 'model' / 'agent_index' into a listed 'params' dictionary, and its only direct raise is the one for a description that could not be opened.")
+EXPLANATION += (" get_module_name returns the entry's 'module' verbatim (the default only when the entry has none); no function of the decoder reads the process environment.")
 ASSUMPTIONS = ["what user decode() static methods and hooks do is outside the package", "sys.modules name resolution at run time"]
 
 HOOKS = {'pre_model_decode': 'data', 'post_model_decode': 'data', 'pre_system_init': 'system', 'post_system_init': 'system',
@@ -374,6 +376,61 @@ def run(cx: Cx):
     else:
         cx.ok('R-FWD', f"decode() adds only 'model' / 'agent_index' to the listed params ({n_ps} store(s) examined)", where=cx.where(dfn),
               function=dfn.qualname)
+    # the description that is decoded is what the file says: nothing of the process environment is substituted into it
+    # (expandvars over the text rewrites every id, prefix and hook parameter that contains a `$NAME`)
+    import ast as _ast1
+    n_env = 0
+    env_hit = None
+    for q_, f_ in sorted(cx.prog.functions.items()):
+        if not q_.startswith(DEC) or '#' in q_:
+            continue
+        n_env += 1
+        for n_ in _ast1.walk(f_.node):
+            txt = None
+            if isinstance(n_, _ast1.Attribute) and n_.attr in ('expandvars', 'environ', 'getenv', 'environb'):
+                txt = _ast1.unparse(n_)
+            elif isinstance(n_, _ast1.Name) and n_.id in ('expandvars', 'getenv', 'environ') and isinstance(n_.ctx, _ast1.Load):
+                txt = n_.id
+            if txt and env_hit is None:
+                env_hit = (f_, n_, txt)
+    if env_hit:
+        f_, n_, txt = env_hit
+        cx.violation('R-FWD', f_.qualname, 'description-decoded-as-written',
+                     f"{f_.qualname} reads the process environment ({txt}): the model that is decoded no longer contains exactly the listed "
+                     f"systems and agents - ids, prefixes and parameters containing `$NAME` depend on the environment variables of the "
+                     f"process", where=cx.where(f_, n_.lineno))
+    else:
+        cx.ok('R-FWD', f"the decoder reads nothing of the process environment ({n_env} functions examined)", where=cx.where(dfn), function=dfn.qualname)
+    # the module a name is resolved in is the one the entry names, verbatim (a "file name" convenience such as
+    # .rstrip('.py') strips CHARACTERS: 'colony' becomes 'colon'), and '__main__' only when the entry names none
+    gm = cx.prog.functions.get(DEC + 'Decoder.get_module_name')
+    if gm is not None and len(gm.params) >= 1:
+        dsym = Sym(gm.params[0])
+        dflt = Sym(gm.params[1]) if len(gm.params) > 1 else None
+        has = AIn(Const('module'), dsym)
+        okm, nm = True, 0
+        for p_ in cx.walker.paths(gm, WalkOptions(unroll=1, callee_raises=False)):
+            if p_.end != 'return':
+                continue
+            nm += 1
+            v_ = strip_versions(p_.last.data.get('value'))
+            if implies(p_.cond, has) is None:
+                good = v_ == Sub(dsym, Const('module'))
+            elif implies(p_.cond, f_not(has)) is None:
+                good = v_ == dflt
+            else:
+                from sa.terms import IfT as _IfT
+                good = isinstance(v_, _IfT) and v_.cond == has and strip_versions(v_.a) == Sub(dsym, Const('module')) and v_.b == dflt
+                good = good or (isinstance(v_, App) and v_.fn == '.get' and tuple(v_.args) == (dsym, Const('module'), dflt))
+            if not good:
+                okm = False
+                cx.violation('R-FWD', gm.qualname, 'module-name-taken-verbatim',
+                             f"get_module_name returns {v_!r} under [{p_.cond!r}]: the module of an entry is d['module'] as written (and the "
+                             f"default only when the entry has none) - anything else resolves classes and hooks in another module",
+                             where=cx.where(gm, p_.last.line))
+                break
+        if okm and nm:
+            cx.ok('R-FWD', "get_module_name returns the entry's 'module' verbatim, the default otherwise", where=cx.where(gm), function=gm.qualname)
     # every description that could be opened is decoded: the only refusal decode() makes itself is "the file did not open" - a
     # validation of its own (duplicate ids, ...) refuses legal descriptions (two systems that leave `id` to their class defaults)
     n_rz = 0
